@@ -73,7 +73,7 @@ func cutsBoundary(L, S int) [][]int {
 }
 
 func one(store string, L int, cuts []int) *scenario {
-	return &scenario{Store: store, Pubs: []pub{{Obj: "/a", Ver: 1, L: L, Cuts: cuts}}, Cons: []con{{Obj: "/a", Ver: -1}}}
+	return &scenario{Store: store, Pubs: []pub{{Obj: "/a", Ver: 1, L: L, Cuts: cuts}}, Cons: []con{{Obj: "/a", Ver: noVer}}}
 }
 
 func perms(v []int64) [][]int64 {
@@ -171,7 +171,7 @@ func family(fam string, S int, th bool) []*scenario {
 		// the real window of 10 and fills it with one interrupted 12-segment transfer, one with ten
 		// failed single-Interest fetches.
 		good := pub{Obj: "/b", Ver: 1, L: 2*S + 1}
-		last := con{Obj: "/b", Ver: -1}
+		last := con{Obj: "/b", Ver: noVer}
 		segsOf := func(obj string, from, to int) []target {
 			var t []target
 			for k := from; k <= to; k++ {
@@ -181,17 +181,17 @@ func family(fam string, S int, th bool) []*scenario {
 		}
 		// both outstanding Interests of a 3-segment object are never answered (window 2 = full)
 		out = append(out, &scenario{Store: "mem", Window: 2, Pubs: []pub{{Obj: "/a", Ver: 1, L: 2*S + 1}, good}, Rems: segsOf("/a", 1, 2),
-			Seq: []con{{Obj: "/a", Ver: -1}, last}})
+			Seq: seq(con{Obj: "/a", Ver: noVer}, last)})
 		// two failed fetches with one outstanding Interest each
 		out = append(out, &scenario{Store: "mem", Window: 2, Pubs: []pub{{Obj: "/a", Ver: 1, L: S + 1}, {Obj: "/c", Ver: 1, L: S + 1}, good},
-			Rems: append(segsOf("/a", 0, 0), segsOf("/c", 0, 0)...), Seq: []con{{Obj: "/a", Ver: -1}, {Obj: "/c", Ver: -1}, last}})
+			Rems: append(segsOf("/a", 0, 0), segsOf("/c", 0, 0)...), Seq: seq(con{Obj: "/a", Ver: noVer}, con{Obj: "/c", Ver: noVer}, last)})
 		// a missing object (metadata fails), then a 4-segment object losing segments 1..3 (window 3)
 		out = append(out, &scenario{Store: "mem", Window: 3, Pubs: []pub{{Obj: "/a", Ver: 1, L: 3*S + 1}, good}, Rems: segsOf("/a", 1, 3),
-			Seq: []con{{Obj: "/x", Ver: -1}, {Obj: "/a", Ver: -1}, last}})
+			Seq: seq(con{Obj: "/x", Ver: noVer}, con{Obj: "/a", Ver: noVer}, last)})
 		// real window (10): one interrupted transfer of a 12-segment object, window full
 		if fam == "reuse" {
 			out = append(out, &scenario{Store: "mem", Pubs: []pub{{Obj: "/a", Ver: 1, L: 11*S + 1}, good}, Rems: segsOf("/a", 1, 10),
-				Seq: []con{{Obj: "/a", Ver: -1}, last}})
+				Seq: seq(con{Obj: "/a", Ver: noVer}, last)})
 		}
 		// real window (10): ten failed fetches of small objects
 		if fam == "reuse" {
@@ -200,15 +200,50 @@ func family(fam string, S int, th bool) []*scenario {
 				o := fmt.Sprintf("/f%d", i)
 				sc.Pubs = append(sc.Pubs, pub{Obj: o, Ver: 1, L: 1})
 				sc.Rems = append(sc.Rems, target{Obj: o, Ver: 1, Seg: 0})
-				sc.Seq = append(sc.Seq, con{Obj: o, Ver: -1})
+				sc.Seq = append(sc.Seq, seq(con{Obj: o, Ver: noVer})...)
 			}
-			sc.Seq = append(sc.Seq, last)
+			sc.Seq = append(sc.Seq, seq(last)...)
 			out = append(out, sc)
 		}
 		// reuse after success, and a sequential fetch after two concurrent ones (one failing)
-		out = append(out, &scenario{Store: "mem", Window: 2, Pubs: []pub{{Obj: "/a", Ver: 1, L: 3*S + 1}, good}, Seq: []con{{Obj: "/a", Ver: -1}, last, {Obj: "/a", Ver: 1}}})
+		out = append(out, &scenario{Store: "mem", Window: 2, Pubs: []pub{{Obj: "/a", Ver: 1, L: 3*S + 1}, good}, Seq: seq(con{Obj: "/a", Ver: noVer}, last, con{Obj: "/a", Ver: 1})})
 		out = append(out, &scenario{Store: "mem", Window: 3, Pubs: []pub{{Obj: "/a", Ver: 1, L: 2*S + 1}, {Obj: "/c", Ver: 1, L: S + 1}, good}, Rems: segsOf("/a", 1, 2),
-			Cons: []con{{Obj: "/a", Ver: -1}, {Obj: "/c", Ver: -1}}, Seq: []con{last}})
+			Cons: []con{{Obj: "/a", Ver: noVer}, {Obj: "/c", Ver: noVer}}, Seq: seq(last)})
+	case "vbound":
+		// version boundaries: every pair (older, newer) of {0, 1, 2^31, 2^32, 2^63-1, 2^63, 2^64-2,
+		// 2^64-1}, published in both orders, on both stores; the consumer asks for the object name
+		for _, st := range []string{"mem", "bolt"} {
+			for i, a := range boundaryVersions {
+				for j, b := range boundaryVersions {
+					if i == j {
+						continue
+					}
+					// (i, j) with i != j enumerates both publication orders of every pair
+					out = append(out, &scenario{Store: st, Cons: []con{{Obj: "/a", Ver: noVer}},
+						Pubs: []pub{{Obj: "/a", Ver: int64(a), L: S + 1 + i}, {Obj: "/a", Ver: int64(b), L: S + 1 + j}}})
+				}
+			}
+		}
+	case "cache":
+		// a forwarder's content store sits between consumer and producer: fetch, publish a newer
+		// version, let the cached packets go stale (FreshnessPeriod 4 s), fetch again on the same
+		// client: the second fetch must deliver the newer version
+		for _, st := range []string{"mem", "bolt"} {
+			byName := con{Obj: "/a", Ver: noVer}
+			v2 := pub{Obj: "/a", Ver: 2, L: S + 2}
+			out = append(out, &scenario{Store: st, Cache: true, Pubs: []pub{{Obj: "/a", Ver: 1, L: S + 1}},
+				Seq: []step{{C: &byName}, {P: &v2}, {T: 5 * time.Second}, {C: &byName}}})
+			// within the freshness period the cache may legally answer with the old metadata
+			out = append(out, &scenario{Store: st, Cache: true, Pubs: []pub{{Obj: "/a", Ver: 1, L: S + 1}},
+				Seq: []step{{C: &byName}, {P: &v2}, {T: time.Second}, {C: &byName}, {T: 5 * time.Second}, {C: &byName}}})
+		}
+		{
+			byName := con{Obj: "/a", Ver: noVer}
+			ts := pub{Obj: "/a", Ver: noVer, L: 2*S + 1, Adv: time.Second}
+			ts2 := pub{Obj: "/a", Ver: noVer, L: S + 3, Adv: time.Second}
+			out = append(out, &scenario{Store: "mem", Cache: true,
+				Seq: []step{{P: &ts}, {C: &byName}, {P: &ts2}, {T: 5 * time.Second}, {C: &byName}, {C: &byName}}})
+		}
 	case "hist":
 		// explored WITHOUT canonical-state de-duplication (Config.NoDedup): hidden state that no
 		// canonical form shows cannot make the search merge away the history that exposes it
@@ -240,7 +275,7 @@ func family(fam string, S int, th bool) []*scenario {
 		orders = append(orders, []int64{0}, []int64{0, 2}, []int64{2, 0}, []int64{3, 0, 1}, []int64{0, 255, 256}, []int64{256, 255})
 		for _, st := range []string{"mem", "bolt"} {
 			for _, o := range orders {
-				sc := &scenario{Store: st, Cons: []con{{Obj: "/a", Ver: -1}}}
+				sc := &scenario{Store: st, Cons: []con{{Obj: "/a", Ver: noVer}}}
 				for _, v := range o {
 					sc.Pubs = append(sc.Pubs, pub{Obj: "/a", Ver: v, L: S + 1 + int(v%7)})
 				}
@@ -250,37 +285,37 @@ func family(fam string, S int, th bool) []*scenario {
 			out = append(out, &scenario{Store: st, Pubs: []pub{{Obj: "/a", Ver: 1, L: S + 2}, {Obj: "/a", Ver: 2, L: S + 3}, {Obj: "/a", Ver: 3, L: 3}}, Cons: []con{{Obj: "/a", Ver: 1}}})
 			out = append(out, &scenario{Store: st, Pubs: []pub{{Obj: "/a", Ver: 0, L: S + 2}}, Cons: []con{{Obj: "/a", Ver: 0}}})
 			// default version = timestamp: the later publication is the newest
-			out = append(out, &scenario{Store: st, Pubs: []pub{{Obj: "/a", Ver: -1, L: S + 2, Adv: time.Second}, {Obj: "/a", Ver: -1, L: S + 3, Adv: time.Second}}, Cons: []con{{Obj: "/a", Ver: -1}}})
+			out = append(out, &scenario{Store: st, Pubs: []pub{{Obj: "/a", Ver: noVer, L: S + 2, Adv: time.Second}, {Obj: "/a", Ver: noVer, L: S + 3, Adv: time.Second}}, Cons: []con{{Obj: "/a", Ver: noVer}}})
 			// a sibling object and a nested object with larger versions must not be picked
-			out = append(out, &scenario{Store: st, Pubs: []pub{{Obj: "/a", Ver: 1, L: 2}, {Obj: "/a/b", Ver: 5, L: 3}, {Obj: "/ab", Ver: 7, L: 3}}, Cons: []con{{Obj: "/a", Ver: -1}}})
+			out = append(out, &scenario{Store: st, Pubs: []pub{{Obj: "/a", Ver: 1, L: 2}, {Obj: "/a/b", Ver: 5, L: 3}, {Obj: "/ab", Ver: 7, L: 3}}, Cons: []con{{Obj: "/a", Ver: noVer}}})
 		}
 	case "rem":
 		for _, st := range []string{"mem", "bolt"} {
 			three := []pub{{Obj: "/a", Ver: 1, L: 2*S + 1}, {Obj: "/a", Ver: 2, L: 2*S + 2}, {Obj: "/a", Ver: 3, L: S + 3}}
-			byName := []con{{Obj: "/a", Ver: -1}}
+			byName := []con{{Obj: "/a", Ver: noVer}}
 			// newest version removed completely: the consumer gets version 2
 			out = append(out, &scenario{Store: st, Pubs: three, Cons: byName, Rems: []target{{Obj: "/a", Meta: true, Ver: 3, Seg: 0}, {Obj: "/a", Ver: 3, Seg: -1, Prefix: true}}})
 			// only the segments of the newest version removed: metadata still points to it -> error
 			out = append(out, &scenario{Store: st, Pubs: three, Cons: byName, Rems: []target{{Obj: "/a", Ver: 3, Seg: -1, Prefix: true}}})
 			// all metadata removed
-			out = append(out, &scenario{Store: st, Pubs: three, Cons: byName, Rems: []target{{Obj: "/a", Meta: true, Ver: -1, Seg: -1, Prefix: true}}})
+			out = append(out, &scenario{Store: st, Pubs: three, Cons: byName, Rems: []target{{Obj: "/a", Meta: true, Ver: noVer, Seg: -1, Prefix: true}}})
 			// everything removed / nothing ever published
-			out = append(out, &scenario{Store: st, Pubs: three, Cons: byName, Rems: []target{{Obj: "/a", Ver: -1, Seg: -1, Prefix: true}}})
+			out = append(out, &scenario{Store: st, Pubs: three, Cons: byName, Rems: []target{{Obj: "/a", Ver: noVer, Seg: -1, Prefix: true}}})
 			out = append(out, &scenario{Store: st, Cons: byName})
 			// one segment (first / middle / last) of the only version removed
 			for seg := 0; seg < 3; seg++ {
 				out = append(out, &scenario{Store: st, Pubs: three[:1], Cons: byName, Rems: []target{{Obj: "/a", Ver: 1, Seg: seg}}})
 			}
 			// removal of something else leaves the object intact
-			out = append(out, &scenario{Store: st, Pubs: []pub{three[0], {Obj: "/a/b", Ver: 9, L: 2}}, Cons: byName, Rems: []target{{Obj: "/a/b", Ver: -1, Seg: -1, Prefix: true}, {Obj: "/a", Ver: 1, Seg: 7}}})
+			out = append(out, &scenario{Store: st, Pubs: []pub{three[0], {Obj: "/a/b", Ver: 9, L: 2}}, Cons: byName, Rems: []target{{Obj: "/a/b", Ver: noVer, Seg: -1, Prefix: true}, {Obj: "/a", Ver: 1, Seg: 7}}})
 			// removals injected while the fetch is running
 			out = append(out, &scenario{Store: st, Pubs: three[:2], Cons: byName, Dyn: []target{{Obj: "/a", Ver: 2, Seg: -1, Prefix: true}, {Obj: "/a", Ver: 2, Seg: 1}, {Obj: "/a", Meta: true, Ver: 2, Seg: 0}}})
 		}
 	case "dual":
 		two := []pub{{Obj: "/a", Ver: 1, L: 2*S + 1}, {Obj: "/b", Ver: 1, L: S + 1}}
-		both := []con{{Obj: "/a", Ver: -1}, {Obj: "/b", Ver: -1}}
+		both := []con{{Obj: "/a", Ver: noVer}, {Obj: "/b", Ver: noVer}}
 		out = append(out, &scenario{Store: "mem", Pubs: two, Cons: both})
-		out = append(out, &scenario{Store: "mem", Pubs: two, Cons: []con{{Obj: "/b", Ver: -1}, {Obj: "/a", Ver: 1}}})
+		out = append(out, &scenario{Store: "mem", Pubs: two, Cons: []con{{Obj: "/b", Ver: noVer}, {Obj: "/a", Ver: 1}}})
 		// one of two concurrent fetches fails (a segment is gone): the other one must still complete
 		out = append(out, &scenario{Store: "mem", Pubs: two, Cons: both, Rems: []target{{Obj: "/a", Ver: 1, Seg: 0}}})
 		out = append(out, &scenario{Store: "mem", Pubs: two, Cons: both, Rems: []target{{Obj: "/b", Ver: 1, Seg: 1}}})
@@ -291,9 +326,9 @@ func family(fam string, S int, th bool) []*scenario {
 		// the enc.Name handed to Produce / Consume has spare capacity (as names built with append or
 		// decoded from packets have)
 		for _, sl := range []int{1, 3, 4} {
-			out = append(out, &scenario{Store: "mem", Pubs: []pub{{Obj: "/a", Ver: 1, L: 3*S + 1, Slack: sl}}, Cons: []con{{Obj: "/a", Ver: -1}}})
+			out = append(out, &scenario{Store: "mem", Pubs: []pub{{Obj: "/a", Ver: 1, L: 3*S + 1, Slack: sl}}, Cons: []con{{Obj: "/a", Ver: noVer}}})
 			out = append(out, &scenario{Store: "mem", Pubs: []pub{{Obj: "/a", Ver: 1, L: 3*S + 1}}, Cons: []con{{Obj: "/a", Ver: 1, Slack: sl}}})
-			out = append(out, &scenario{Store: "mem", Pubs: []pub{{Obj: "/a", Ver: 1, L: 3*S + 1}}, Cons: []con{{Obj: "/a", Ver: -1, Slack: sl}}})
+			out = append(out, &scenario{Store: "mem", Pubs: []pub{{Obj: "/a", Ver: 1, L: 3*S + 1}}, Cons: []con{{Obj: "/a", Ver: noVer, Slack: sl}}})
 		}
 	default:
 		report.Fatal("unknown scenario family %q", fam)
@@ -345,15 +380,15 @@ func configs(th bool) []explore.Config {
 
 func allConfigs(th bool) []explore.Config {
 	if object.VerifSegmentSize() >= 100 { // real segment size (child build)
-		c := []explore.Config{cfg("ver", 0), cfg("rem", 0), cfg("reuse", 0), cfg("perm", -1), cfg("fifo", 0), cfg("sched1", 1), cfg("sched2", 2)}
+		c := []explore.Config{cfg("ver", 0), cfg("rem", 0), cfg("reuse", 0), cfg("vbound", 0), cfg("cache", 0), cfg("perm", -1), cfg("fifo", 0), cfg("sched1", 1), cfg("sched2", 2)}
 		return c
 	}
 	// the k=0 runs come first so that a defect visible on the default schedule is reported with
 	// that (shortest) history
-	c := []explore.Config{cfg("ver", 0), cfg("rem", 0), cfg("dual", 0), cfg("slack", 0), cfg("reuse", 0), cfg("reuseS", 1),
+	c := []explore.Config{cfg("ver", 0), cfg("rem", 0), cfg("dual", 0), cfg("slack", 0), cfg("reuse", 0), cfg("vbound", 0), cfg("cache", 0), cfg("cache", 1), cfg("reuseS", 1),
 		cfg("ver", 1), cfg("rem", 1), cfg("dual", 1), cfg("slack", 1), cfg("perm", -1), cfg("fifo", 0), cfg("sched1", 1), cfg("sched2", 2), histCfg(2)}
 	if th {
-		c = []explore.Config{cfg("ver", 0), cfg("rem", 0), cfg("dual", 0), cfg("slack", 0), cfg("reuse", 0), cfg("reuseS", 2),
+		c = []explore.Config{cfg("ver", 0), cfg("rem", 0), cfg("dual", 0), cfg("slack", 0), cfg("reuse", 0), cfg("vbound", 0), cfg("cache", 0), cfg("cache", 2), cfg("reuseS", 2),
 			cfg("ver", 2), cfg("rem", 2), cfg("dual", 2), cfg("slack", 2), cfg("perm", -1), cfg("tiny", -1), cfg("fifo", 0),
 			cfg("sched1", 1), histCfg(3), cfg("sched3", 3), cfg("sched2", 2)}
 	}
